@@ -413,7 +413,7 @@ class PIDController(PIController):
         self.PIC = PIController(info="PIC", tex_name="PIC",
                                 u=self.uin, kp=self.kp, ki=self.ki, x0=x0)
         self.WO = Washout(info='Washout', tex_name='WO',
-                          u=self.uin, K=self.kd, T=self.kd)
+                          u=self.uin, K=self.kd, T=self.Td)
 
         self.y = Algeb(info="PID output", tex_name='y')
 
@@ -555,7 +555,7 @@ class PIDAWHardLimit(PIAWHardLimit):
         self.uin = Algeb(info="PID input", tex_name='uin')
 
         self.WO = Washout(info='Washout', tex_name='WO',
-                          u=self.uin, K=self.kd, T=self.kd)
+                          u=self.uin, K=self.kd, T=self.Td)
 
         # the sequence affect the initialization order
         self.vars = OrderedDict([('xi', self.xi), ('uin', self.uin),
